@@ -15,7 +15,9 @@ META = {
     "timeout firing, PCT priorities, sticky (few pre-emptions) and exhaustive bounded-pre-emption DFS on small configurations; after EVERY step "
     "lock owners, both waiter lists, all counters, batch, result/exception and each thread's pending synchronisation operation are compared with "
     "the Lean model; returned values and the log of f calls are compared at the end; the oracles (own slice, each pub once, overlap counter, "
-    "no hang, exception delivery, reset) run on the implementation alone. non-trivial = >= 2 threads and >= 20 steps; distinct = (programs, faults, schedule)",
+    "no hang, exception delivery, reset) run on the implementation alone; solver level: real EVQE solvers (thread pool, mutually exclusive primitives) on an "
+    "estimator that counts invocations in progress — one solver, a second solver constructed on the SAME configured estimator while the first computes, one solver solving twice — "
+    "and the wrapper chain the constructor installs. non-trivial = >= 2 threads and >= 20 steps; distinct = (programs, faults, schedule)",
     "trusted_base": ['Lean 4 kernel; axioms of each theorem as listed under coverage.theorems (subset of propext, Classical.choice, Quot.sound)', "harness/sched.py: cooperative Lock/Condition/sleep replacing the names in mutex_primitives' namespace (mutual exclusion; wait atomically enqueues and releases; notify wakes only current waiters, FIFO; untimed wait has no spurious wake-up; a timed wait may return at any time); CPython's real primitives are assumed to behave like that", "harness/runner_corr.py + Driver/Runner.lean (translation of scheduling decisions into model actions, comparison of all shared fields and of every thread's pending synchronisation operation after every step)", 'the wrapped primitive returns or raises (it does not block forever)'],
     "assumptions": ["fair scheduling for liveness", "the wrapped primitive returns or raises"],
 }
@@ -26,6 +28,9 @@ def run(ctx):
 
     runner_corr.run_cluster(ctx, "C07")
     wrapper_corr.run_wrapper_level(ctx, "C07")
+    import solver_wrappers_corr
+
+    solver_wrappers_corr.run_solver_level(ctx, "C07")
 
 
 def replay(ctx, case):
@@ -34,4 +39,12 @@ def replay(ctx, case):
         import wrapper_corr
 
         return wrapper_corr.replay_wrapper_level(ctx, "C07", inp["wrapper_level"])
+    if "solver_level" in inp:
+        import random
+
+        import solver_wrappers_corr
+
+        if inp["solver_level"] == "wrapper-table":
+            return solver_wrappers_corr.wrapper_table_case(ctx, "C07")
+        return solver_wrappers_corr.shared_primitive_case(ctx, "C07", random.Random(inp.get("seed", 0)), inp["solver_level"])
     runner_corr.replay_case(ctx, "C07", case)
